@@ -117,10 +117,16 @@ structure RetryCfg where
   retryOn : Option Val := none
   deriving Repr, DecidableEq, Inhabited
 
-/-- A step as it stands in the yaml. `simple` = a bare string step (no line/col, no decorators).
-    `whileRaw`/`retryRaw` keep a non-dict, truthy decorator value (a definition error). -/
+/-- A step as it stands in the yaml. `simple` = a sequence item that is not a mapping (normally a
+    bare string: no line/col, no decorators). `whileBad`/`retryBad` keep a non-dict, truthy decorator
+    value (a definition error). `rawName`: what stands where the step name is expected when that is
+    neither a string nor null - the sequence item itself (`simple`, e.g. `- 42`, `- [a, b]`) or the
+    value of the `name` key (`name: 5`); `Step.__init__` takes it as it is (duck typing). `lc` is the
+    position ruamel's round-trip parser recorded for the step mapping (`step.lc.line`, `step.lc.col`:
+    0-based; the first key of a block mapping, the opening brace of a flow mapping). -/
 structure StepDef where
   name : Option String              -- `name` key (module to load)
+  rawName : Option Val := none
   simple : Bool := false
   inArgs : Option (List (String × Val)) := none
   run : Val := .bool true
@@ -132,14 +138,38 @@ structure StepDef where
   retry : Option RetryCfg := none
   retryBad : Bool := false
   onError : Option Val := none
-  line : Option Nat := none
-  col : Option Nat := none
+  description : Option Val := none  -- `description` key
+  lc : Option (Nat × Nat) := none
   deriving Repr, DecidableEq, Inhabited
+
+/-- `Step.line_no`: `step.lc.line + 1` whenever the step mapping has an `lc` (so also for `lc.line = 0`,
+    a step on the first line of the file), else `None`. -/
+def StepDef.line (d : StepDef) : Option Nat := d.lc.map (·.1 + 1)
+
+/-- `Step.line_col`: `step.lc.col + 1`. -/
+def StepDef.col (d : StepDef) : Option Nat := d.lc.map (·.2 + 1)
+
+/-- What stands under a step-group's name in the pipeline yaml. Only a sequence (or null) is a well
+    formed group; the other shapes are yaml slips that `StepsRunner.get_pipeline_steps` /
+    `run_pipeline_steps` nevertheless process (duck typing). -/
+inductive GroupBody where
+  | null                          -- `g:` / `g: null`
+  | steps (ss : List StepDef)     -- a sequence
+  | str (s : String)              -- a string: `len` works, `for step in steps` yields its characters
+  | mapping (keys : List Val)     -- a mapping: `len` works, iteration yields its keys
+  | unsized                       -- int / float / bool / a `!py`, `!sic`, `!jsonify` scalar: no `len()`
+  deriving Repr, Inhabited
+
+/-- a sequence item / mapping key / character as `Step.__init__` receives it when it is not a mapping -/
+def itemStep (v : Val) : StepDef :=
+  match v with
+  | .str n => { name := some n, simple := true }
+  | other => { name := none, rawName := some other, simple := true }
 
 structure PipeDef where
   name : String
   parser : Option String := none
-  groups : List (String × Option (List StepDef))   -- group name ↦ steps (`none`: null sequence)
+  groups : List (String × GroupBody)   -- group name ↦ what stands under it
   deriving Repr, Inhabited
 
 structure Program where
@@ -149,7 +179,7 @@ structure Program where
 def Program.find? (p : Program) (name : String) : Option PipeDef :=
   p.pipes.find? (·.name == name)
 
-def PipeDef.group? (p : PipeDef) (g : String) : Option (Option (List StepDef)) :=
+def PipeDef.group? (p : PipeDef) (g : String) : Option GroupBody :=
   (p.groups.find? (·.1 == g)).map (·.2)
 
 end Pypyr.Flow
